@@ -386,7 +386,10 @@ func H_C08_siblings() {
 	for _, tn := range tests {
 		content += vxFrame(tn+" - 1", "v-"+tn)
 	}
-	vxWriteFile(path, content)
+	// a stale entry of a sibling sub-test that no longer exists: a skip of other sub-tests of
+	// TestE does not protect it (TestE itself ran)
+	stale := vxFrame("TestE/gone - 1", "stale")
+	vxWriteFile(path, content+stale)
 	vxrt.TestSources(vxrt.Dir()+"/f_test.go", "TestE")
 	c := WithConfig(Dir(dir), Filename("f_test"), Update(false))
 	skipJ := vxrt.Bool("skip-TestE/j")
@@ -414,5 +417,5 @@ func H_C08_siblings() {
 	Clean(nil)
 	out := vxrt.Stdout()
 	vxrt.Assert(vxReadFile(path) == content, "C08:entries-of-skipped-tests-and-their-descendants-kept")
-	vxrt.Assert(!strings.Contains(out, vxBullet), "C08:entries-of-skipped-tests-not-listed")
+	vxrt.Assert(strings.Count(out, vxBullet) == 1 && strings.Contains(out, vxBullet+"TestE/gone - 1\n"), "C08:only-the-stale-sibling-listed")
 }
